@@ -7,7 +7,7 @@ from sympy import Mul, S, Add, Rational
 
 from adcgen.indices import get_symbols
 from adcgen.sympy_objects import (NonSymmetricTensor, AntiSymmetricTensor, KroneckerDelta,
-                                  Amplitude)
+                                  Amplitude, SymmetricTensor)
 from adcgen.expr_container import Expr
 from adcgen.sort_expr import (by_delta_types, by_delta_indices, by_tensor_block,
                               by_tensor_target_block, by_tensor_target_indices,
@@ -36,6 +36,10 @@ def build_term(spec, idx):
             o = AntiSymmetricTensor("K", t[:h], t[h:], -1)
         elif kind == "A":       # no bra-ket symmetry
             o = AntiSymmetricTensor("A", t[:h], t[h:], 0)
+        elif kind == "D":       # symmetric within bra and ket, bra-ket antisymmetric
+            o = SymmetricTensor("D", t[:h], t[h:], -1)
+        elif kind == "Q":       # symmetric within bra and ket, bra-ket symmetric
+            o = SymmetricTensor("Sy", t[:h], t[h:], 1)
         else:
             o = NonSymmetricTensor(kind if kind in ("Y", "Z") else "X", t)
         fs.append(o ** exp)
@@ -71,7 +75,7 @@ def random_term(rng, names):
 def model(big=False):
     # big: 4 occupied spin orbitals (antisymmetric four index blocks vanish
     # identically with 2)
-    return Model(orbital_space(2 if big else 1, 1), seed=21, braket={"V": 1, "f": 1, "K": -1})
+    return Model(orbital_space(2 if big else 1, 1), seed=21, braket={"V": 1, "f": 1, "K": -1, "D": -1, "Sy": 1})
 
 
 # --- Term.symmetry -------------------------------------------------------------
@@ -97,6 +101,20 @@ def sym_cases(tier, seed):
             if kind != "K" and perm[0] > perm[1]:
                 continue
             yield {"term": [[kind, list(perm), 1], ["X", ["i"], 1]], "mode": "all"}
+    # the symmetry of a single object (Obj.symmetry) and of terms with powers of
+    # tensors: an even power of a bra-ket antisymmetric tensor is bra-ket symmetric
+    for kind in ("K", "V", "A", "D", "Q"):
+        for exp in (1, 2, 3):
+            for names in (["i", "j", "k", "l"], ["i", "j", "a", "b"], ["i", "j"], ["i", "a"]):
+                yield {"term": [[kind, names, exp]], "mode": "obj"}
+                if exp > 1:
+                    # (Term.symmetry() without restriction lists repeated indices with their
+                    # multiplicity and enumerates products of up to n-1 of all index pairs: with
+                    # seven or more entries of one space it does not return in any useful time,
+                    # so terms with powers are analysed through their (contracted) indices)
+                    mode = "contracted"
+                    yield {"term": [[kind, names, exp]], "mode": mode}
+                    yield {"term": [[kind, names, exp], ["X", [names[0]], 1]], "mode": mode}
     for _ in range(30 if tier == "quick" else 400):
         names = rng.sample(OCC, 3) + rng.sample(VIRT, 3)
         t = random_term(rng, names)[:2]
@@ -112,9 +130,26 @@ def sym_check(case):
         return True, "trivial"
     e = Expr(sym, real=True)
     term = e.terms[0]
+    m = model(big=sum(1 for x in term.idx if x.space == "occ") > 4)
+    if case["mode"] == "obj":
+        # Obj.symmetry: all indices of the object count as target indices
+        rng = random.Random(len(str(case)))
+        for obj in term.objects:
+            if obj.sympy.is_number:
+                continue
+            idxs = list(dict.fromkeys(obj.idx))
+            for perms, factor in obj.symmetry().items():
+                if factor not in (1, -1):
+                    return False, f"factor {factor} reported for {perms} of {obj}"
+                for asg in all_assignments(idxs, m.orbs, limit=12, rng=rng):
+                    v0 = evaluate(obj.sympy, asg, m)
+                    v1 = evaluate(obj.sympy, permuted_assignment(asg, perms), m)
+                    if v1 != factor * v0:
+                        return False, (f"Obj.symmetry of {obj} reports {perms} -> {factor} but the permuted "
+                                       f"object has value {v1} vs {factor}*{v0} at {asg}")
+        return True, ""
     kw = {"all": {}, "contracted": {"only_contracted": True}, "target": {"only_target": True}}[case["mode"]]
     res = term.symmetry(**kw)
-    m = model(big=sum(1 for x in term.idx if x.space == "occ") > 4)
     targets = list(term.target)
     rng = random.Random(len(str(case)))
     items = list(res.items())
